@@ -7,7 +7,6 @@ Traces == JsonDeserialize(IOEnv.TRACE_FILE)
 VARIABLES tid, l
 Ev == Traces[tid][l]
 Clause(name, b) == IF b THEN TRUE ELSE PrintT(<<"FAIL", tid, l, name>>) /\ FALSE
-Proj(o) == [id |-> o.id, vec |-> o.vec, costs |-> o.costs, signed |-> o.signed, cls |-> o.cls, pop |-> o.pop, state |-> o.state]
 Act(e) == CASE e.op = "new"        -> New(e.x, e.cls)
             [] e.op = "copy"       -> Copy(e.i)
             [] e.op = "copynsga"   -> CopyNsga(e.i)
@@ -17,7 +16,8 @@ Act(e) == CASE e.op = "new"        -> New(e.x, e.cls)
             [] e.op = "setvec"     -> SetVec(e.i, e.x)
             [] e.op = "setcost"    -> SetCost(e.i, e.x)
             [] e.op = "setsigned"  -> SetSigned(e.i, e.x)
-Known == {"new", "copy", "copynsga", "tofrom", "tofromjson", "sync", "setvec", "setcost", "setsigned"}
+            [] e.op = "setfeat"    -> SetFeat(e.i, e.x)
+Known == {"new", "copy", "copynsga", "tofrom", "tofromjson", "sync", "setvec", "setcost", "setsigned", "setfeat"}
 OpEv(e) ==
     /\ Clause("no-exception", e.exc = "")
     /\ Clause("known-operation", e.op \in Known)
@@ -30,6 +30,7 @@ OpEv(e) ==
     /\ Clause("vector-aliasing", \A k \in DOMAIN objs' : e.objs[k].vec = objs'[k].vec)
     /\ Clause("costs-aliasing", \A k \in DOMAIN objs' : e.objs[k].costs = objs'[k].costs)
     /\ Clause("signed-costs-aliasing", \A k \in DOMAIN objs' : e.objs[k].signed = objs'[k].signed)
+    /\ Clause("features-aliasing", \A k \in DOMAIN objs' : e.objs[k].feat = objs'[k].feat)
     /\ Clause("list-contents", e.lists = lists')
 TInit == tid \in 1..Len(Traces) /\ l = 1 /\ Init
 TNext == /\ l <= Len(Traces[tid])
